@@ -68,6 +68,7 @@ func wfRangeReq(o *ObjectRangeRequest) bool {
 //@ func parseRangeHeader
 //@ props C11 C09
 //@ ensures [C11]     empty:   imp(s == "", ret0 == nil && ret1 == nil)
+//@ ensures [C11]     unit:    imp(s != "" && !strings.HasPrefix(s, "bytes="), ret1 != nil)
 //@ ensures [C11]     errs:    imp(ret1 != nil, ret0 == nil && errcode(ret1) == ErrInvalidRange)
 //@ ensures [C11]     wf:      wfRangeReq(ret0)
 //@ ensures [C11]     fromend: imp(ret0 != nil && ret0.FromEnd, ret0.Start == 0)
@@ -196,6 +197,13 @@ func wfRangeReq(o *ObjectRangeRequest) bool {
 //@ ghost put_size : Int
 //@ ghost put_input : If
 // the last object read from the backend: which (bucket, key, version) was asked for ("" = current) and what came back
+// the last part handed to the multipart backend
+//@ ghost part_count : Int
+//@ ghost part_bucket : Str
+//@ ghost part_key : Str
+//@ ghost part_id : Str
+//@ ghost part_no : Int
+//@ ghost part_input : If
 //@ ghost get_count : Int
 //@ ghost get_bucket : Str
 //@ ghost get_key : Str
@@ -843,6 +851,8 @@ func wfRangeReq(o *ObjectRangeRequest) bool {
 //@ iface gofakes3.MultipartBackend.UploadPart
 //@ requires [C06,C14] pn:     partNumber >= 1
 //@ requires           input:  input != nil
+//@ modifies part_count, part_bucket, part_key, part_id, part_no, part_input, rd_pos(input)
+//@ ensures            log:    part_count == old(part_count) + 1 && part_bucket == bucket && part_key == object && part_id == id && part_no == partNumber && part_input == input
 //@ iface gofakes3.MultipartBackend.ListMultipartUploads
 //@ requires           limit:  limit >= 1
 //@ iface gofakes3.MultipartBackend.ListParts
@@ -1016,7 +1026,7 @@ func wfRangeReq(o *ObjectRangeRequest) bool {
 //@ ensures [C08]      reject: imp(err != nil && errcode(err) != "" && !g.autoBucket, store_gen == old(store_gen))
 //@ ensures [C08]      badlen: imp(err == nil && resp_status(w) == 400 && old(resp_status(w)) != 400 && !g.autoBucket, store_gen == old(store_gen))
 //@ func (*GoFakeS3).copyObject
-//@ props C09 C08
+//@ props C09 C08 C02
 //@ requires           inv:    gInv(g) && w != nil && rqInv(r) && meta != nil
 //@ ensures [C08]      reject: imp(err != nil && errcode(err) != "" && !g.autoBucket, store_gen == old(store_gen))
 //@ modifies store_gen, resp_writes(w), meta[:], get_count, get_bucket, get_key, get_ver, get_obj
@@ -1035,6 +1045,11 @@ func wfRangeReq(o *ObjectRangeRequest) bool {
 //@ func (*GoFakeS3).putMultipartUploadPart
 //@ props C09 C06 C08
 //@ requires           inv:    gInv(g) && w != nil && rqInv(r)
+//@ ensures [C08,C06]  wired:  imp(part_count == old(part_count) + 1, part_bucket == bucket && part_key == object && part_id == uploadID && part_no >= 1 &&
+//@                              ite(g.integrityCheck && old(r.Header).Get("Content-MD5") != "",
+//@                                  typeis(part_input, *hashingReader) && dyn(part_input, *hashingReader) != nil && dyn(part_input, *hashingReader).inner == old(r.Body),
+//@                                  part_input == old(r.Body)))
+//@ ensures [C08]      once:   part_count <= old(part_count) + 1
 //@ func (*GoFakeS3).abortMultipartUpload
 //@ props C09 C06
 //@ requires           inv:    gInv(g) && w != nil && rqInv(r)
